@@ -137,6 +137,8 @@ def register(reg):
     register_project_sql(reg)
     register_extend_sql(reg)
     register_select_rows_sql(reg)
+    register_rename_sql(reg)
+    register_map_sql(reg)
     register_order_steps(reg)
     register_small_steps(reg)
 
@@ -465,7 +467,107 @@ def register_select_rows_sql(reg):
                                          ("node-allocated", c.eng.allocated(c.st, c.select_rows_node)), ("source-allocated", c.eng.allocated(c.st, VScalar(c.field(c.select_rows_node, "sources").arr[0], NODE)))]))
 
 
-KEYS_C08_SQL = ["SQLModel.select_rows_to_near_sql"]
+KEYS_C08_SQL = ["SQLModel.select_rows_to_near_sql", "SQLModel.rename_to_near_sql", "SQLModel.map_columns_to_near_sql"]
+
+
+# ====================================================================== C08/C15: SQLModel.map_columns_to_near_sql
+def register_map_sql(reg):
+    import z3
+    from pyvc.api import Contract, T, VList, VNone, VOpt, VPy, VScalar, VSet, VStr, VTuple, VDict, fresh_name
+    from contracts.vr_common import COLS, NODE
+    SM = T.obj("SQLModel")
+    NEAR = T.opaque("NearSQL")
+
+    def quote(S):
+        return S.func("quote_identifier", S.Atom, S.Atom)
+
+    def cu_apply(eng, st, argmap, node):
+        S = eng.S
+        arr = z3.Const(fresh_name("subusing"), z3.ArraySort(S.Atom, z3.BoolSort()))
+        st.assume(z3.Not(arr[S.NONE]))
+        st.ghost["subusing"] = arr
+        return [(st, VTuple([VSet(arr, T.set(T.atom))], is_list=True))]
+
+    reg.add(Contract(key="MapColumnsNode.columns_used_from_sources", cls="MapColumnsNode", params={"self": T.obj("MapColumnsNode")}, assumed=True, apply=cu_apply,
+                     note="columns_used_from_sources returns one set of source columns (its own obligations: C10)"))
+
+    def ens(c):
+        S, eng, st = c.S, c.eng, c.st
+        if c.raised:
+            return []
+        node = c.map_columns_node
+        terms = st.ghost.get("unary_step_terms")
+        sub = st.ghost.get("subusing")
+        if not isinstance(terms, VDict) or sub is None:
+            return [("builds-a-unary-step-with-a-term-dictionary", z3.BoolVal(False))]
+        rm = c.field(node, "column_remapping")  # old -> new
+        dels = eng.list_mem(c.field(node, "column_deletions"), st)
+        k = z3.Const("mp_k", S.Atom)
+        j = z3.Const("mp_j", S.Atom)
+        is_new = lambda x: z3.Exists([j], z3.And(rm.dom[j], rm.val[j] == x))
+        touched = lambda x: z3.Or(rm.dom[x], is_new(x), dels[x])
+        return [("every-mapped-column-is-selected-as-new-name = quoted old name", z3.ForAll([k], z3.Implies(rm.dom[k], z3.And(terms.dom[rm.val[k]], terms.val[rm.val[k]] == quote(S)(k))))),
+                ("every-other-term-is-a-requested-source-column-that-the-mapping-neither-renames-nor-deletes, passed through unchanged",
+                 z3.ForAll([k], z3.Implies(z3.And(terms.dom[k], z3.Not(is_new(k))), z3.And(sub[k], z3.Not(touched(k)), terms.val[k] == S.NONE)))),
+                ("no-requested-untouched-source-column-is-lost-and-no-deleted-column-survives", z3.ForAll([k], z3.And(z3.Implies(z3.And(sub[k], z3.Not(touched(k))), terms.dom[k]),
+                                                                                                                  z3.Implies(z3.And(dels[k], z3.Not(is_new(k))), z3.Not(terms.dom[k])))))]
+
+    reg.add(Contract(key="SQLModel.map_columns_to_near_sql", file="data_algebra/sql_model.py", qualname="SQLModel.map_columns_to_near_sql", cls="SQLModel",
+                     params={"self": SM, "map_columns_node": T.obj("MapColumnsNode"), "using": T.opt(T.obj("OrderedSet")), "temp_id_source": Ty_py_none(), "sql_format_options": Ty_py_none()},
+                     returns=NEAR, ensures=ens, modifies=(("OrderedSet", "impl"),),
+                     requires=lambda c: [("is-a-map_columns-node", c.field(c.map_columns_node, "node_name").z == c.S.str_const("MapColumnsNode")), ("one-source", c.field(c.map_columns_node, "sources").n == 1),
+                                         ("node-allocated", c.eng.allocated(c.st, c.map_columns_node)), ("source-allocated", c.eng.allocated(c.st, VScalar(c.field(c.map_columns_node, "sources").arr[0], NODE))),
+                                         ("remapping-is-injective-with-no-None-entries (constructor)", z3.And(z3.Not(c.field(c.map_columns_node, "column_remapping").dom[c.S.NONE]),
+                                           z3.ForAll([z3.Const("a_", c.S.Atom), z3.Const("b_", c.S.Atom)], z3.Implies(z3.And(c.field(c.map_columns_node, "column_remapping").dom[z3.Const("a_", c.S.Atom)], c.field(c.map_columns_node, "column_remapping").dom[z3.Const("b_", c.S.Atom)],
+                                                      c.field(c.map_columns_node, "column_remapping").val[z3.Const("a_", c.S.Atom)] == c.field(c.map_columns_node, "column_remapping").val[z3.Const("b_", c.S.Atom)]), z3.Const("a_", c.S.Atom) == z3.Const("b_", c.S.Atom)))))]))
+
+
+# ====================================================================== C08/C15: SQLModel.rename_to_near_sql (the SELECT terms of a rename step)
+def register_rename_sql(reg):
+    import z3
+    from pyvc.api import Contract, T, VList, VNone, VOpt, VPy, VScalar, VSet, VStr, VTuple, VDict, fresh_name
+    from contracts.vr_common import COLS, NODE
+    SM = T.obj("SQLModel")
+    NEAR = T.opaque("NearSQL")
+
+    def quote(S):
+        return S.func("quote_identifier", S.Atom, S.Atom)
+
+    def cu_apply(eng, st, argmap, node):
+        S = eng.S
+        arr = z3.Const(fresh_name("subusing"), z3.ArraySort(S.Atom, z3.BoolSort()))
+        st.assume(z3.Not(arr[S.NONE]))
+        st.ghost["subusing"] = arr
+        return [(st, VTuple([VSet(arr, T.set(T.atom))], is_list=True))]
+
+    reg.add(Contract(key="RenameColumnsNode.columns_used_from_sources", cls="RenameColumnsNode", params={"self": T.obj("RenameColumnsNode")}, assumed=True, apply=cu_apply,
+                     note="columns_used_from_sources returns one set of source columns (its own obligations: C10)"))
+
+    def ens(c):
+        S, eng, st = c.S, c.eng, c.st
+        if c.raised:
+            return []
+        node = c.rename_node
+        terms = st.ghost.get("unary_step_terms")
+        sub = st.ghost.get("subusing")
+        if not isinstance(terms, VDict) or sub is None:
+            return [("builds-a-unary-step-with-a-term-dictionary", z3.BoolVal(False))]
+        rm = c.field(node, "column_remapping")
+        k = z3.Const("rn_k", S.Atom)
+        old_names = z3.Const("rn_old_names", z3.ArraySort(S.Atom, z3.BoolSort()))  # the set of remapping VALUES
+        j = z3.Const("rn_j", S.Atom)
+        is_old = lambda x: z3.Exists([j], z3.And(rm.dom[j], rm.val[j] == x))
+        return [("every-renamed-column-is-selected-as-new-name = quoted old name", z3.ForAll([k], z3.Implies(rm.dom[k], z3.And(terms.dom[k], terms.val[k] == quote(S)(rm.val[k]))))),
+                ("every-other-term-is-a-requested-source-column-that-the-renaming-does-not-touch, passed through unchanged",
+                 z3.ForAll([k], z3.Implies(z3.And(terms.dom[k], z3.Not(rm.dom[k])), z3.And(sub[k], z3.Not(is_old(k)), terms.val[k] == S.NONE)))),
+                ("no-requested-untouched-source-column-is-lost", z3.ForAll([k], z3.Implies(z3.And(sub[k], z3.Not(rm.dom[k]), z3.Not(is_old(k))), terms.dom[k])))]
+
+    reg.add(Contract(key="SQLModel.rename_to_near_sql", file="data_algebra/sql_model.py", qualname="SQLModel.rename_to_near_sql", cls="SQLModel",
+                     params={"self": SM, "rename_node": T.obj("RenameColumnsNode"), "using": T.opt(T.obj("OrderedSet")), "temp_id_source": Ty_py_none(), "sql_format_options": Ty_py_none()},
+                     returns=NEAR, ensures=ens, modifies=(("OrderedSet", "impl"),),
+                     requires=lambda c: [("is-a-rename-node", c.field(c.rename_node, "node_name").z == c.S.str_const("RenameColumnsNode")), ("one-source", c.field(c.rename_node, "sources").n == 1),
+                                         ("node-allocated", c.eng.allocated(c.st, c.rename_node)), ("source-allocated", c.eng.allocated(c.st, VScalar(c.field(c.rename_node, "sources").arr[0], NODE))),
+                                         ("remapping-has-no-None-entries (constructor)", z3.Not(c.field(c.rename_node, "column_remapping").dom[c.S.NONE]))]))
 
 
 # ====================================================================== C18: the executors' order_rows steps (arguments handed to sort / head)
